@@ -7,6 +7,7 @@ use crate::lists::verif_proofs as lp;
 use crate::state::verif_proofs as sp;
 use crate::verif::ghost::{self, g};
 use crate::verif::probes::*;
+use crate::verif::probes::{Big, Leaf, Node, Zst};
 
 pub(crate) type P = NonNull<CcBox<()>>;
 
@@ -61,4 +62,355 @@ pub(crate) fn elem_addr<T: Trace + 'static>(p: NonNull<CcBox<T>>) -> usize {
 }
 pub(crate) fn elem_offset<T: Trace + 'static>() -> usize {
     core::mem::offset_of!(CcBox<T>, elem)
+}
+
+// ------------------------------------------------------------------------------------------------
+// probe registry and pre-state builders
+// ------------------------------------------------------------------------------------------------
+#[allow(static_mut_refs)]
+pub(crate) static mut REG: [Option<NonNull<CcBox<Node>>>; ghost::MAX_OBJ] = [None; ghost::MAX_OBJ];
+
+/// Read the payload without going through Deref (which panics while tracing in debug builds).
+pub(crate) fn peek_node(c: &Cc<Node>) -> &Node {
+    c.inner().get_elem()
+}
+pub(crate) fn node_of<'a>(p: NonNull<CcBox<Node>>) -> &'a Node {
+    unsafe { &*p.as_ref().get_elem_mut() }
+}
+/// A new Cc to registered object `id`, produced by the REAL Cc::clone.
+pub(crate) fn clone_from_registry(id: usize) -> Option<Cc<Node>> {
+    unsafe {
+        match REG[id] {
+            Some(p) => {
+                let tmp = ManuallyDrop::new(Cc { inner: p, _phantom: PhantomData });
+                Some((*tmp).clone())
+            }
+            None => None,
+        }
+    }
+}
+/// Create object `id` through the real Cc::new and register its address.
+pub(crate) fn mk_node(id: u8) -> Cc<Node> {
+    let c = Cc::new(Node::new(id));
+    unsafe { REG[id as usize] = Some(c.inner) };
+    c
+}
+pub(crate) fn reg(id: usize) -> P {
+    unsafe { REG[id].unwrap().cast() }
+}
+
+pub(crate) const NODE_BOX: usize = core::mem::size_of::<CcBox<Node>>();
+
+/// Symbolic idle-invariant header for `p` (I3/I4): count in 1..=MAX, arbitrary finalized bit,
+/// metadata bit as it is; buffered => mark PossibleCycles and tracing counter 0, unbuffered =>
+/// NonMarked with an arbitrary STALE tracing counter.
+pub(crate) fn havoc_idle(p: P, in_pc: bool) -> (u16, u16) {
+    let (_, c0) = words_of(p);
+    let cnt: u16 = kani::any();
+    kani::assume(cnt >= 1 && cnt <= 16382);
+    let fin: bool = kani::any();
+    let c = (c0 & 0x8000) | if fin { 0x4000 } else { 0 } | cnt;
+    let t = if in_pc {
+        0x4000
+    } else {
+        let stale: u16 = kani::any();
+        kani::assume(stale < 0x3fff);
+        stale
+    };
+    set_words_of(p, t, c);
+    (t, c)
+}
+
+/// Put `x` (if `in_pc`) and up to two bystanders into the thread-local POSSIBLE_CYCLES in a symbolic
+/// arrangement; returns the expected sequence and its length.
+pub(crate) fn build_pc(x: P, others: [P; 2], in_pc: bool) -> ([Option<P>; 3], usize) {
+    let k: usize = kani::any();
+    kani::assume(k <= 2);
+    let pos: usize = kani::any();
+    kani::assume(pos <= k);
+    let mut arr: [Option<P>; 3] = [None; 3];
+    let mut n = 0;
+    let mut i = 0;
+    while i < 3 {
+        if in_pc && i == pos {
+            arr[n] = Some(x);
+            n += 1;
+        }
+        if i < k {
+            arr[n] = Some(others[i]);
+            n += 1;
+        }
+        i += 1;
+    }
+    // link
+    let mut i = 0;
+    while i < n {
+        let next = if i + 1 < n { arr[i + 1] } else { None };
+        let prev = if i > 0 { arr[i - 1] } else { None };
+        set_links(arr[i].unwrap(), next, prev);
+        i += 1;
+    }
+    // bystanders in the buffer satisfy the idle invariant too
+    let mut i = 0;
+    while i < 2 {
+        if i < k {
+            havoc_idle(others[i], true);
+        } else {
+            havoc_idle(others[i], false);
+        }
+        i += 1;
+    }
+    POSSIBLE_CYCLES.with(|pc| lp::pc_set(pc, arr[0], n));
+    (arr, n)
+}
+
+pub(crate) fn pc_view() -> (lp::Seq, usize) {
+    POSSIBLE_CYCLES.with(|pc| (lp::seq(lp::pc_first(pc)), lp::pc_size(pc)))
+}
+
+/// expected buffer sequence after removing `x` from `arr`
+pub(crate) fn pc_is(arr: &[Option<P>; 3], n: usize, without: Option<P>) -> (bool, bool) {
+    let (s, size) = pc_view();
+    let mut k = 0;
+    let mut i = 0;
+    let mut ok = s.wf;
+    while i < 3 {
+        if i < n && arr[i] != without {
+            if s.e[k] != arr[i] {
+                ok = false;
+            }
+            k += 1;
+        }
+        i += 1;
+    }
+    (ok && s.len == k, size == k)
+}
+
+pub(crate) fn any_flags_not_tracing() -> (bool, bool, bool) {
+    let (c, f, d): (bool, bool, bool) = (kani::any(), kani::any(), kani::any());
+    #[cfg(not(feature = "finalization"))]
+    let f = false;
+    kani::assume(!(c && !f && !d));
+    state(|s| sp::set_flags(s, c, f, d));
+    (c, f, d)
+}
+
+// ------------------------------------------------------------------------------------------------
+// Cc::new / CcBox::new / layout
+// ------------------------------------------------------------------------------------------------
+fn new_contract<T: Trace + 'static>(t: T) -> Cc<T> {
+    let (c, f, d) = any_flags_not_tracing();
+    #[cfg(feature = "auto-collect")]
+    let _ = crate::config::config(|cfg| cfg.set_auto_collect(false));
+    let b0: usize = kani::any();
+    kani::assume(b0 < (1usize << 40));
+    state(|s| sp::set_bytes(s, b0));
+    let cc = Cc::new(t);
+    let p = raw_of(&cc);
+    let (tw, cw) = words_of(p);
+    kani::assert(cw & 0x3fff == 1, "Cc::new::post::strong_count_one");
+    kani::assert(cc.strong_count() == 1, "Cc::strong_count::post::reads_counter");
+    kani::assert(tw >> 14 == 0, "Cc::new::post::non_marked");
+    kani::assert(cw & 0x8000 == 0, "Cc::new::post::no_side_record");
+    kani::assert((cw & 0x4000 != 0) == f, "Cc::new::post::finalized_bit_equals_is_finalizing");
+    kani::assert(next_of(p).is_none() && prev_of(p).is_none(), "Cc::new::post::unlinked");
+    let sn = state(|s| sp::snap(s));
+    kani::assert(sn.bytes == b0 + core::mem::size_of::<CcBox<T>>(), "Cc::new::post::allocated_bytes_plus_box_size");
+    kani::assert(sn.collecting == c && sn.finalizing == f && sn.dropping == d, "Cc::new::frame::flags");
+    kani::assert(cc.inner().layout() == Layout::new::<CcBox<T>>(), "CcBox::layout::post::equals_creation_layout");
+    kani::assert(pc_view().1 == 0, "Cc::new::frame::buffer");
+    cc
+}
+
+//@ C04 C05 C11 C03 C20 | complete | deciding | feat=full,std | fn=Cc::new,CcBox::new,CcBox::layout,Metadata::new,Cc::strong_count
+#[kani::proof]
+#[kani::unwind(9)]
+pub(crate) fn cc_new_contract_leaf() {
+    let v: u64 = kani::any();
+    let cc = new_contract(Leaf(v));
+    kani::assert((*cc).0 == v, "Cc::new::post::value_stored");
+    kani::assert(&*cc as *const Leaf as usize == raw_of(&cc).as_ptr() as usize + elem_offset::<Leaf>(), "Cc::deref::post::address_is_box_plus_elem_offset");
+    core::mem::forget(cc);
+}
+
+//@ C03 C20 | complete | deciding | feat=full | fn=Cc::new,CcBox::layout
+#[kani::proof]
+pub(crate) fn cc_new_contract_zst_big() {
+    let a = new_contract(Zst);
+    kani::assert(&*a as *const Zst as usize == raw_of(&a).as_ptr() as usize + elem_offset::<Zst>(), "Cc::deref::post::address_is_box_plus_elem_offset");
+    let b = new_contract(Big([3; 96]));
+    kani::assert((*b).0[95] == 3, "Cc::new::post::value_stored");
+    kani::assert(&*b as *const Big as usize == raw_of(&b).as_ptr() as usize + elem_offset::<Big>(), "Cc::deref::post::address_is_box_plus_elem_offset");
+    kani::assert(elem_offset::<Big>() % 64 == 0 && core::mem::align_of::<CcBox<Big>>() >= 64, "CcBox::layout::post::elem_offset_and_box_alignment_honour_T");
+    kani::assert(elem_offset::<Leaf>() % core::mem::align_of::<Leaf>() == 0, "CcBox::layout::post::elem_offset_and_box_alignment_honour_T");
+    core::mem::forget(a);
+    core::mem::forget(b);
+}
+
+/// Cc::new while tracing: debug builds refuse (panic) before touching anything.
+//@ C12 | complete | deciding | feat=full,std | fn=Cc::new
+#[kani::proof]
+#[kani::should_panic]
+pub(crate) fn cc_new_panics_while_tracing() {
+    state(|s| sp::set_flags(s, true, false, false));
+    let cc = Cc::new(Leaf(1));
+    core::mem::forget(cc);
+}
+
+// ------------------------------------------------------------------------------------------------
+// Cc::clone
+// ------------------------------------------------------------------------------------------------
+//@ C04 C11 C01 C16 | complete | deciding | feat=full,std | fn=Cc::clone,Cc::mark_alive,remove_from_list | timeout=600
+#[kani::proof]
+#[kani::unwind(9)]
+pub(crate) fn cc_clone_contract() {
+    let h = mk_node(0);
+    let y = mk_node(1);
+    let z = mk_node(2);
+    let (x, py, pz) = (raw_of(&h), raw_of(&y), raw_of(&z));
+    let in_pc: bool = kani::any();
+    let (arr, n) = build_pc(x, [py, pz], in_pc);
+    let (t0, c0) = havoc_idle(x, in_pc);
+    kani::assume(c0 & 0x3fff < 16382);
+    let (wy, wz) = (words_of(py), words_of(pz));
+    let fl = any_flags_not_tracing();
+    let sn0 = state(|s| sp::snap(s));
+    let h2 = h.clone();
+    kani::assert(Cc::ptr_eq(&h, &h2) && raw_of(&h2) == x, "Cc::clone::post::same_allocation");
+    let (t1, c1) = words_of(x);
+    kani::assert(c1 & 0x3fff == (c0 & 0x3fff) + 1, "Cc::clone::post::strong_count_plus_one");
+    kani::assert(c1 & 0xc000 == c0 & 0xc000, "Cc::clone::frame::finalized_and_metadata_bits");
+    kani::assert(t1 >> 14 == 0, "Cc::clone::post::not_buffered_mark");
+    kani::assert(next_of(x).is_none() && prev_of(x).is_none(), "Cc::clone::post::unlinked");
+    { let (a, b) = pc_is(&arr, n, Some(x)); kani::assert(a, "Cc::clone::post::buffer_is_old_buffer_without_operand"); kani::assert(b, "Cc::clone::post::buffered_count_minus_one_iff_was_buffered"); }
+    kani::assert(words_of(py) == wy && words_of(pz) == wz, "Cc::clone::frame::other_objects");
+    kani::assert(state(|s| sp::snap(s)) == sn0, "Cc::clone::frame::collector_state");
+    kani::assert(peek_node(&h).intact() && g().n_trace == 0 && g().n_fin == 0 && g().n_drop == 0, "Cc::clone::frame::no_callback_value_intact");
+    core::mem::forget((h, h2, y, z));
+}
+
+/// At the limit the only outcome is the panic (C16).
+//@ C16 | complete | deciding | feat=full,std | fn=Cc::clone
+#[kani::proof]
+#[kani::should_panic]
+pub(crate) fn cc_clone_panics_at_max() {
+    let h = mk_node(0);
+    let x = raw_of(&h);
+    let (t0, c0) = havoc_idle(x, false);
+    kani::assume(c0 & 0x3fff == 16382);
+    let h2 = h.clone();
+    core::mem::forget((h, h2));
+}
+
+/// ... and the count is unchanged at that panic: the only write before the test is none
+/// (the leaf contract gives Err => word unchanged; here: no other write precedes the panic).
+//@ C16 | complete | deciding | feat=full,std | fn=Cc::clone
+#[kani::proof]
+pub(crate) fn cc_clone_at_max_leaves_words() {
+    let h = mk_node(0);
+    let x = raw_of(&h);
+    let (t0, c0) = havoc_idle(x, false);
+    kani::assume(c0 & 0x3fff == 16382);
+    // the prefix of Cc::clone up to the panic is exactly this call
+    let r = cm_of(x).increment_counter();
+    kani::assert(r.is_err() && words_of(x) == (t0, c0), "Cc::clone::post::count_unchanged_at_limit");
+    core::mem::forget(h);
+}
+
+//@ C12 | complete | deciding | feat=full,std | fn=Cc::clone
+#[kani::proof]
+#[kani::should_panic]
+pub(crate) fn cc_clone_panics_while_tracing() {
+    let h = mk_node(0);
+    state(|s| sp::set_flags(s, true, false, false));
+    let h2 = h.clone();
+    core::mem::forget((h, h2));
+}
+
+// ------------------------------------------------------------------------------------------------
+// remove_from_list / add_to_list / mark_alive
+// ------------------------------------------------------------------------------------------------
+//@ C11 C01 C02 | complete | deciding | feat=full,std | fn=add_to_list | timeout=600
+#[kani::proof]
+#[kani::unwind(9)]
+pub(crate) fn cc_add_to_list_contract() {
+    let h = mk_node(0);
+    let y = mk_node(1);
+    let z = mk_node(2);
+    let (x, py, pz) = (raw_of(&h), raw_of(&y), raw_of(&z));
+    let in_pc: bool = kani::any();
+    let (arr, n) = build_pc(x, [py, pz], in_pc);
+    let (t0, c0) = havoc_idle(x, in_pc);
+    let (wy, wz) = (words_of(py), words_of(pz));
+    add_to_list(x);
+    let (t1, c1) = words_of(x);
+    kani::assert(t1 >> 14 == 1, "add_to_list::post::marked_buffered");
+    kani::assert(t1 & 0x3fff == 0, "add_to_list::post::tracing_counter_zero");
+    kani::assert(c1 == c0, "add_to_list::frame::counter_word");
+    let (s, size) = pc_view();
+    kani::assert(s.wf && lp::contains(&s, x), "add_to_list::post::in_buffer");
+    kani::assert(size == if in_pc { n } else { n + 1 } && s.len == size, "add_to_list::post::size_plus_one_iff_was_not_buffered");
+    let mut i = 0;
+    while i < 3 {
+        if i < n && arr[i] != Some(x) {
+            kani::assert(lp::contains(&s, arr[i].unwrap()), "add_to_list::frame::other_members_stay");
+        }
+        i += 1;
+    }
+    kani::assert(words_of(py) == wy && words_of(pz) == wz, "add_to_list::frame::other_objects");
+    // idempotent
+    add_to_list(x);
+    kani::assert(pc_view().1 == size && words_of(x) == (t1, c1), "add_to_list::post::idempotent");
+    core::mem::forget((h, y, z));
+}
+
+//@ C11 C01 | complete | deciding | feat=full,std | fn=remove_from_list,Cc::mark_alive | timeout=600
+#[kani::proof]
+#[kani::unwind(9)]
+pub(crate) fn cc_remove_from_list_contract() {
+    let h = mk_node(0);
+    let y = mk_node(1);
+    let z = mk_node(2);
+    let (x, py, pz) = (raw_of(&h), raw_of(&y), raw_of(&z));
+    let in_pc: bool = kani::any();
+    let (arr, n) = build_pc(x, [py, pz], in_pc);
+    let (t0, c0) = havoc_idle(x, in_pc);
+    let (wy, wz) = (words_of(py), words_of(pz));
+    let sn0 = state(|s| sp::snap(s));
+    if kani::any() {
+        remove_from_list(x);
+    } else {
+        h.mark_alive();
+    }
+    let (t1, c1) = words_of(x);
+    kani::assert(t1 >> 14 == 0, "remove_from_list::post::non_marked");
+    kani::assert(t1 & 0x3fff == t0 & 0x3fff && c1 == c0, "remove_from_list::frame::counters");
+    kani::assert(next_of(x).is_none() && prev_of(x).is_none(), "remove_from_list::post::unlinked");
+    { let (a, b) = pc_is(&arr, n, Some(x)); kani::assert(a, "remove_from_list::post::buffer_is_old_buffer_without_operand"); kani::assert(b, "remove_from_list::post::size_minus_one_iff_was_buffered"); }
+    kani::assert(words_of(py) == wy && words_of(pz) == wz, "remove_from_list::frame::other_objects");
+    kani::assert(state(|s| sp::snap(s)) == sn0, "remove_from_list::frame::collector_state");
+    core::mem::forget((h, y, z));
+}
+
+/// mark_alive / remove_from_list on an object the collector currently owns (InList / InQueue) is a
+/// no-op: it must not unlink it from the collector's working lists.
+//@ C01 C12 | complete | deciding | feat=full,std | fn=remove_from_list,Cc::mark_alive
+#[kani::proof]
+#[kani::unwind(9)]
+pub(crate) fn cc_remove_from_list_collector_owned_noop() {
+    let h = mk_node(0);
+    let y = mk_node(1);
+    let (x, py) = (raw_of(&h), raw_of(&y));
+    // x sits in a collector list with a neighbour
+    let first = if kani::any() { lp::chain(&[x, py], 2) } else { lp::chain(&[py, x], 2) };
+    let t: u16 = kani::any();
+    let c: u16 = kani::any();
+    kani::assume(t >> 14 >= 2 && (t & 0x3fff) != 0x3fff && (c & 0x3fff) != 0x3fff);
+    set_words_of(x, t, c);
+    let links = (next_of(x), prev_of(x), next_of(py), prev_of(py));
+    h.mark_alive();
+    kani::assert(words_of(x) == (t, c), "remove_from_list::collector_owned::frame::words");
+    kani::assert((next_of(x), prev_of(x), next_of(py), prev_of(py)) == links, "remove_from_list::collector_owned::frame::links");
+    kani::assert(pc_view().1 == 0, "remove_from_list::collector_owned::frame::buffer");
+    core::mem::forget((h, y));
 }
